@@ -41,6 +41,10 @@ def shapes(tier):
         out.append({"fn": "periods_spanned", "nt": nt, "P": "sym"})
         for P in Ps:
             out.append({"fn": "max_phase_gap", "nt": nt, "P": P})
+            if nt <= 2 or tier == "thorough":
+                # reference epoch given explicitly: no observation needs to sit at phase 0
+                out.append({"fn": "max_phase_gap", "nt": nt, "P": P, "tref": "explicit"})
+                out.append({"fn": "phase_coverage", "nt": nt, "n_bins": 2, "P": P, "tref": "explicit"})
             if nt == 2:
                 # two-run relational query; for >= 3 epochs z3 answers unknown (floor of negated terms), so the
                 # reversal clause is claimed for 2 epochs only -- for more epochs it follows from equality with the
@@ -54,6 +58,9 @@ def shapes(tier):
             out.append({"fn": "phase", "nt": nt, "P": P})
     for ns in (1, 2, 3):
         out.append({"fn": "MAP_sample", "ns": ns})
+    # a sample outside the prior support / with a failed likelihood: ln value -inf at a given row
+    for ns, pos in ((2, 0), (3, 0), (3, 1)):
+        out.append({"fn": "MAP_sample", "ns": ns, "neginf": pos})
     return out
 
 
@@ -116,6 +123,8 @@ def run_shape(shape, tier):
             cols = {}
             for name, un in (("P", units.day), ("e", units.one), ("ln_prior", units.one), ("ln_likelihood", units.one)):
                 cells = [core.real("%s_%d" % (name, i)) for i in range(ns)]
+                if name == "ln_likelihood" and shape.get("neginf") is not None:
+                    cells[shape["neginf"]] = symnp.NonFinite("-inf")
                 cols[name] = cells
                 s[name] = units.Quantity(symnp.SymArray(symnp._obj(cells), symnp._F8), un)
             row, idx = sa.MAP_sample(s, return_index=True)
@@ -134,7 +143,7 @@ def run_shape(shape, tier):
             other = units.Time(core.real("tref_other"))
             Pq = units.Quantity(P, Punit)
             return t, d, P, (d.phase(Pq), d.phase(Pq, t_ref=other), tr, other)
-        t, d = _data(st, nt)
+        t, d = _data(st, nt, t_ref=units.Time(core.real("tref_explicit")) if shape.get("tref") == "explicit" else None)
         s = _sample(st, P, Punit)
         if fn == "max_phase_gap":
             return t, d, P, sa.max_phase_gap(s, d)
@@ -167,7 +176,10 @@ def run_shape(shape, tier):
             t, d, P, val = path.result
 
             def desc(m, t=t, P=P):
-                return {"t": [str(core.model_value(m, x)) for x in t], "P": str(core.model_value(m, P))}
+                out_ = {"t": [str(core.model_value(m, x)) for x in t], "P": str(core.model_value(m, P))}
+                if shape.get("tref") == "explicit":
+                    out_["t_ref"] = str(core.model_value(m, core.real("tref_explicit")))
+                return out_
             tref = d._t_ref_bmjd
             if fn == "periods_spanned":
                 v = _scalar(val)
@@ -249,9 +261,25 @@ def _spec_map(sink, path, shape, result, res):
     cols, row, idx, row2 = result
     ns = shape["ns"]
     post = [cols["ln_prior"][i] + cols["ln_likelihood"][i] for i in range(ns)]
+    NF = symnp.NonFinite
+
+    def geq(a, b):
+        """a >= b on extended reals (only -inf occurs)"""
+        if isinstance(b, NF):
+            return z3.BoolVal(True)
+        if isinstance(a, NF):
+            return z3.BoolVal(False)
+        return L(a) >= L(b)
+
+    def same(x, y):
+        if isinstance(x, symnp.SymChoice):
+            return z3.Or([z3.And(c, same(v, y)) for c, v in x.pairs])
+        if isinstance(x, NF) or isinstance(y, NF):
+            return z3.BoolVal(isinstance(x, NF) and isinstance(y, NF) and x.kind == y.kind)
+        return L(x) == L(y)
 
     def desc(m):
-        return {k: [str(core.model_value(m, x)) for x in v] for k, v in cols.items()}
+        return {k: ["-inf" if isinstance(x, NF) else str(core.model_value(m, x)) for x in v] for k, v in cols.items()}
     for tag, r in (("MAP_sample", row), ("MAP_sample.noindex", row2)):
         ok = hasattr(r, "tbl") and len(r) == 1 and set(r.tbl.colnames) == set(cols)
         if not ok:
@@ -259,13 +287,13 @@ def _spec_map(sink, path, shape, result, res):
             continue
         member = []
         for i in range(ns):
-            same = [L(r.tbl[c].value.a[0]) == L(cols[c][i]) for c in cols]
-            best = [L(post[i]) >= L(post[j]) for j in range(ns)]
-            member.append(z3.And(same + best))
+            sm = [same(r.tbl[c].value.a[0], cols[c][i]) for c in cols]
+            best = [geq(post[i], post[j]) for j in range(ns)]
+            member.append(z3.And(sm + best))
         sink.check(path, tag, core.SB(z3.Or(member)), site="MAP_sample", describe=desc)
     # the returned index designates that row
     ie = L(idx)
-    cl = z3.And([z3.Implies(ie == i, z3.And([L(post[i]) >= L(post[j]) for j in range(ns)] + [L(row.tbl["P"].value.a[0]) == L(cols["P"][i])])) for i in range(ns)] + [ie >= 0, ie < ns])
+    cl = z3.And([z3.Implies(ie == i, z3.And([geq(post[i], post[j]) for j in range(ns)] + [L(row.tbl["P"].value.a[0]) == L(cols["P"][i])])) for i in range(ns)] + [ie >= 0, ie < ns])
     sink.check(path, "MAP_sample.index", core.SB(cl), site="MAP_sample", describe=desc)
     add_witness(res, path, desc, site="MAP_sample", limit=1)
 
@@ -289,7 +317,7 @@ def replay(cand):
         s["P"] = np.array([abs(f(x)) + 1.0 for x in m["P"]]) * u.day
         s["e"] = np.array([f(x) for x in m["e"]])
         s["ln_prior"] = np.array([f(x) for x in m["ln_prior"]])
-        s["ln_likelihood"] = np.array([f(x) for x in m["ln_likelihood"]])
+        s["ln_likelihood"] = np.array([float("-inf") if x == "-inf" else f(x) for x in m["ln_likelihood"]])
         post = s["ln_prior"].value + s["ln_likelihood"].value
         try:
             row, i = sa.MAP_sample(s, return_index=True)
@@ -314,11 +342,17 @@ def replay(cand):
     if not P > 0:
         return {"reproduced": False, "detail": "P<=0 in model"}
     nt = len(t)
-    data = RVData(t + 56000.0, np.arange(nt) * 1.0 * u.km / u.s, np.ones(nt) * u.km / u.s)
+    tref_kw = {}
+    t0 = t.min()
+    if shape.get("tref") == "explicit" and "t_ref" in m and fn != "phase":
+        from astropy.time import Time as _Time
+        t0 = f(m["t_ref"])
+        tref_kw = {"t_ref": _Time(t0 + 56000.0, format="mjd", scale="tcb")}
+    data = RVData(t + 56000.0, np.arange(nt) * 1.0 * u.km / u.s, np.ones(nt) * u.km / u.s, **tref_kw)
     s = JokerSamples()
     s["P"] = np.array([P]) * u.day
     tt = np.sort(t)
-    phi = ((tt - tt.min()) / P) % 1.0
+    phi = ((tt - t0) / P) % 1.0
     bad = []
     tol = 1e-7
     # keep away from float ties: if two phases or a phase and a bin edge are closer than tol the concrete oracle is ambiguous
